@@ -350,6 +350,10 @@ def run(prog: Program, col: Collector, tier: str, refs: Optional[Refs] = None, c
     from . import c04
     c04._fusion(prog, col, refs, cat)
 
+    # ---------------------------------------------------------------- R05.10
+    col.rule("R05.10", "no constructor declares the same names both fresh (visible outputs) and bound (invisible)", floor=10)
+    _fresh_and_bound_disjoint(prog, col, refs, cat)
+
     # ---------------------------------------------------------------- R05.2
     col.rule("R05.2", "every constructed term is mangled: all bound names, fresh names, rebuilt through reflect", floor=6)
     _mangle(prog, col, refs)
@@ -762,3 +766,68 @@ def _relabel_discipline(prog: Program, col: Collector, refs: Refs, cat: Catalogu
                 col.ok(construct, f"after the relabelling only `{R}` is consulted for input names", f.loc(st))
     if n == 0:
         raise AnalysisError("no fresh relabelling site found (anchor: adjoint_subs)")
+
+
+# ---------------------------------------------------------------------- R05.10
+def _fresh_and_bound_disjoint(prog: Program, col: Collector, refs: Refs, cat: Catalogue):
+    """`fresh` names are inputs the term itself introduces; `bound` names are hidden and alpha-renamed at construction.  A constructor
+    that derives BOTH sets from the same parameter declares the names visible and invisible at once: the lazily built term then
+    lists the mangled name (`x__BOUND_1`) among its inputs and no longer has the input the user named."""
+    n = 0
+    for t in sorted(cat.term_classes.values(), key=lambda x: x.fq):
+        init = t.cls.methods.get("__init__")
+        if init is None or t.fq == FUNSOR_BASE:
+            continue
+        sup = [c for c in walk_no_nested(init.node) if isinstance(c, ast.Call) and isinstance(c.func, ast.Attribute) and c.func.attr == "__init__"
+               and (is_super_call(c, "__init__") or norm(c.func.value) == "Funsor")]
+        if not sup:
+            continue
+        call = sup[0]
+        args = [a for a in call.args if not (isinstance(a, ast.Name) and a.id == init.positional[0])]
+        kw = {k.arg: k.value for k in call.keywords}
+        fresh_e = args[2] if len(args) > 2 else kw.get("fresh")
+        bound_e = args[3] if len(args) > 3 else kw.get("bound")
+        if fresh_e is None or bound_e is None:
+            continue
+        params = set(init.positional[1:])
+
+        def sources(e, depth=0):
+            """constructor parameters the NAMES in the collection are drawn from"""
+            out = set()
+            if depth > 3:
+                return out
+            if isinstance(e, ast.Name):
+                if e.id in params:
+                    out.add(e.id)
+                for st in walk_no_nested(init.node):
+                    if isinstance(st, ast.Assign) and any(isinstance(tg, ast.Name) and tg.id == e.id for tg in st.targets):
+                        out |= sources(st.value, depth + 1)
+                return out
+            if isinstance(e, (ast.DictComp, ast.SetComp, ast.GeneratorExp, ast.ListComp)):
+                key = e.key if isinstance(e, ast.DictComp) else e.elt
+                tnames = {x.id for g in e.generators for x in ast.walk(g.target) if isinstance(x, ast.Name)}
+                if any(isinstance(x, ast.Name) and x.id in tnames for x in ast.walk(key)):
+                    for g in e.generators:
+                        out |= {x.id for x in ast.walk(g.iter) if isinstance(x, ast.Name) and x.id in params}
+                return out
+            if isinstance(e, ast.Call) and e.args:
+                for a in e.args:
+                    out |= sources(a, depth + 1)
+                return out
+            if isinstance(e, ast.Dict):
+                for k in e.keys:
+                    if k is not None:
+                        out |= {x.id for x in ast.walk(k) if isinstance(x, ast.Name) and x.id in params}
+                return out
+            if isinstance(e, (ast.Set, ast.Tuple, ast.List)):
+                for k in e.elts:
+                    out |= {x.id for x in ast.walk(k) if isinstance(x, ast.Name) and x.id in params}
+            return out
+
+        fs, bs = sources(fresh_e), sources(bound_e)
+        n += 1
+        both = sorted(fs & bs)
+        col.check(not both, f"{init.fq}::fresh / bound", "the fresh names and the bound names come from different constructor parameters",
+                  f"both the fresh names and the bound names are drawn from `{both[0] if both else ''}`: the names are declared as inputs of the term and as hidden binders at once, so "
+                  "alpha-renaming renames an INPUT - the lazily built term has input `<name>__BOUND_n` and has lost the input the user named", init.loc(call))
+    col.cur.analysed["constructors_with_fresh_and_bound"] = n
